@@ -183,6 +183,27 @@ PROPS["C07"] = {
     "cover_replay_tests": {"tournament": "c07::tournament_subsets_reachable"},
 }
 
+PROPS["C08"] = {
+    "features": [],
+    "modules": [],
+    "no_kani": True,
+    "needs_rand_090": False,
+    "mirlex": True,
+    "functions": ["MIR of <ec_core::operator::selector::lexicase::Lexicase as Selector<P>>::select"],
+    "bounds": {
+        "quick": "populations x cases (n,m) in {(0,0),(0,2),(1,0),(1,2),(2,1),(2,2),(3,2),(2,3)}, every result a SYMBOLIC unbounded integer (ties, duplicates and every relative "
+                 "order decided by z3 at the three-way comparison), both polarities (scores / errors), every case order and every final order of the survivors (the shuffle models fork "
+                 "over all permutations): returned individual in REF(sigma), candidate set before the final choice == REF(sigma), not Pareto-dominated, Ok iff non-empty",
+        "thorough": "as quick plus (3,3) and (4,2)",
+    },
+    "outside": "uniformity of the case order and of the final choice is rand's documented shuffle contract (modelled as 'any permutation'): the probability law of the statement follows from "
+               "X2 arithmetically and is not re-proved; populations of more than 4 individuals / more than 3 cases; individuals with missing results (decided for <= 1 case under C06); "
+               "std's Vec / slice / Option / Result helpers are models, not executed code",
+    "assumptions": ["rustc's MIR (nightly, -Zunpretty=mir) is the semantics of the source; the Python MIR interpreter stops (exit 2) on any statement or callee it has no rule for",
+                    "Ord on the result type is the integer order (scores) or its reverse (errors): Score/Error's Ord is decided under C15"],
+    "manifest": {"technique": "symbolic execution of the compiler's MIR (regenerated from /repo on every run) with z3 deciding every comparison of the symbolic results and proving the survivor-set equalities; counterexamples replayed natively"},
+}
+
 PROPS["C10"] = {
     "features": ["c10"],
     "modules": ["c10_xo::"],
